@@ -264,42 +264,64 @@ def rule_eof(ctx):
     ctx.ob("C19.EOF", it, "block iteration stops on an empty read", ok, "AsyncStreamIterator never stops", construct="eof:iterator")
 
 
-def rule_dot(ctx):
-    p = ctx.p
-    ctx.rule("C19.DOT", "the lister's '.'/'..' test compares the whole name and dominates both the enqueue and the return; the windows parser rejects them")
-    lst = p.nested(p.method("Client", "list"), "__anext__")
+DOT_SAMPLES = {".": ("", "."), "..": ("..", ".."), "x": ("x", "x"), ".x": (".x", ".x")}   # text -> (PurePosixPath(text).name, str(PurePosixPath(text)))
+
+
+def lister_dot_table(p, lst):
+    """for each sample name: the set of outcomes {'skip', 'return', 'enqueue'} the lister's read loop can reach (tests that do not depend on the
+    name are left open); None if the loop is not found"""
     wl = [w for w in walk_no_nested(lst) if isinstance(w, ast.While) and isinstance(w.test, ast.Constant) and w.test.value is True]
     if not wl:
-        raise Inconclusive("C19.DOT: the lister's read loop (while True) was not found")
-    ok = True
-    tested = False
-    for ev, out in Cfg(lambda n: [], p.issub, unroll=1).seq(wl[0].body):
-        dot = None
-        for e in ev:
-            if e[0] == "branch":
-                t, pol = e[1], e[2]
-                if isinstance(t, ast.Compare) and isinstance(t.ops[0], (ast.In, ast.NotIn)):
+        return None
+    # the variable holding the parsed name: first element of `name, info = <...>.parse_line(line)`
+    nvar = None
+    for n in walk_no_nested(wl[0]):
+        if isinstance(n, ast.Assign) and isinstance(n.targets[0], ast.Tuple) and isinstance(n.value, ast.Call) and last_attr(n.value.func) == "parse_line" and isinstance(n.targets[0].elts[0], ast.Name):
+            nvar = n.targets[0].elts[0].id
+    if nvar is None:
+        return None
+    table = {}
+    paths = Cfg(lambda n: [], p.issub, unroll=1).seq(wl[0].body)
+    for text, (pname, pstr) in DOT_SAMPLES.items():
+        env = {f"str({nvar})": pstr, f"{nvar}.name": pname}
+        outs = set()
+        for ev, out in paths:
+            feasible = True
+            enq = False
+            for e_ in ev:
+                if e_[0] == "branch":
                     try:
-                        vals = set(ast.literal_eval(t.comparators[0]))
+                        if bool(eval_expr(p, e_[1], env, lst)) != e_[2]:
+                            feasible = False
+                            break
                     except Exception:
-                        continue
-                    if {".", ".."} <= vals:
-                        l = t.left
-                        whole = isinstance(l, ast.Call) and isinstance(l.func, ast.Name) and l.func.id == "str" and isinstance(l.args[0], ast.Name)
-                        if not whole:
-                            ok = False   # e.g. name.name: PurePosixPath('.').name == '' so '.' slips through
-                        is_dot = pol if isinstance(t.ops[0], ast.In) else not pol
-                        dot = is_dot
-                        tested = True
-            if e[0] == "stmt":
-                for c in walk_self(e[1]):
-                    if isinstance(c, ast.Call) and is_method_call(c, "append", "directories") and dot is not False:
-                        ok = False
-        if out[0] == "return" and dot is not False:
-            ok = False
-    ctx.ob("C19.DOT", lst, "every return/enqueue of the lister is reached only after the whole name was found not to be '.' or '..'", ok and tested,
-           "the lister can return or enqueue a '.'/'..' entry (the test is missing, compares only a part of the name, or does not dominate the enqueue): "
-           "a recursive listing of a server that reports '.' never terminates", construct="list:dot test")
+                        pass   # a test that does not depend on the name: both outcomes stay open
+                if e_[0] == "stmt" and any(isinstance(c, ast.Call) and is_method_call(c, "append", "directories") for c in walk_self(e_[1])):
+                    enq = True
+            if not feasible:
+                continue
+            if out[0] == "continue":
+                outs.add("skip")
+            elif out[0] == "return":
+                outs.add("return")
+                if enq:
+                    outs.add("enqueue")
+        table[text] = outs
+    return table
+
+
+def rule_dot(ctx):
+    p = ctx.p
+    ctx.rule("C19.DOT", "a listing entry named '.' or '..' is never returned nor enqueued by the lister (evaluated for the sample names '.', '..'); the windows parser rejects them")
+    lst = p.nested(p.method("Client", "list"), "__anext__")
+    table = lister_dot_table(p, lst)
+    if table is None:
+        raise Inconclusive("C19.DOT: the lister's read loop / parsed-name variable was not found")
+    for text in (".", ".."):
+        outs = table[text]
+        ctx.ob("C19.DOT", lst, f"entry {text!r}: reachable outcomes {sorted(outs)} contain neither return nor enqueue", not (outs & {"return", "enqueue"}) and "skip" in outs,
+               f"the lister can return or enqueue the entry {text!r} (outcomes {sorted(outs)}): a recursive listing of a server that reports it never terminates",
+               construct=f"list:dot test:{text}")
     win = p.method("BaseClient", "parse_list_line_windows")
     ok = any(isinstance(n, ast.If) and any(isinstance(s, ast.Raise) for s in n.body) and "'.'" in src(n.test) and "'..'" in src(n.test) for n in walk_no_nested(win))
     ctx.ob("C19.DOT", win, "the windows parser rejects '.' and '..'", ok, "the windows parser accepts '.'/'..' entries", construct="windows:dot")
@@ -309,7 +331,7 @@ def rule_noswallow(ctx):
     """'reports a line it cannot parse instead of dropping it': the stream wrappers do not swallow reader errors (shared with C01.THRU);
     and every normal result of the server's command reader is a (verb, argument) pair - the dispatcher re-arms the read only for pairs"""
     from .c01 import rule_thru
-    ctx.borrow(rule_thru, {"C01.THRU": "C19.THRU"})
+    ctx.borrow(lambda c: rule_thru(c, only=("read", "readline", "readexactly")), {"C01.THRU": "C19.THRU"})
     p = ctx.p
     ctx.rule("C19.PAIR", "every normal return of parse_command is a (verb, argument) pair")
     pc = p.method("Server", "parse_command")
